@@ -156,43 +156,65 @@ def _allowed(harness, desc, allow):
     return False
 
 def run_suite(suite, tier, repo, ev, findings, prop, seed=0):
-    """suite: dict(crate, module, configs=[tuple(features)], harnesses=callable(tier)->[names], allow={regex:[desc]},
-                   require_covers=bool, timeout, label)"""
+    """suite: dict(crate, module, configs=[tuple(features)], configs_quick, harnesses=callable(tier, crate_dir)->[names],
+                   allow={regex:[desc]}, expect={regex:[desc]}, covers=[labels that must be SATISFIED somewhere],
+                   timeout=callable(harness)->seconds, label, bounded)"""
     undecided = []
     crate_dir = prepare(suite['crate'], repo)
-    names = suite['harnesses'](tier)
-    for feats in suite.get('configs', [()]) if tier == 'thorough' else suite.get('configs_quick', suite.get('configs', [()])):
-        r = run_kani(crate_dir, names, features=feats, timeout=suite.get('timeout', {}).get(tier, 1500), module=suite.get('module', 'proofs'),
-                     extra=suite.get('extra', ()))
+    names = suite['harnesses'](tier, crate_dir)
+    configs = suite.get('configs', [()]) if tier == 'thorough' else suite.get('configs_quick', suite.get('configs', [()]))
+    for feats in configs:
         cfgname = '+'.join(feats) or 'default'
+        tmo = suite.get('timeout')
+        if suite.get('pool', True):
+            # per-harness timeouts: run in groups of equal timeout
+            groups = {}
+            for h in names:
+                groups.setdefault(int(tmo(h, tier)) if tmo else 900, []).append(h)
+            results = {}; cmd = ''; build_error = None
+            for t_, hs in sorted(groups.items()):
+                r = run_pool(crate_dir, hs, features=feats, timeout=t_, module=suite.get('module', 'proofs'), extra=suite.get('extra', ()))
+                results.update(r['results']); cmd = r['cmd']; build_error = build_error or r['build_error']
+            r = dict(results=results, cmd=cmd, build_error=build_error, timed_out=False)
+        else:
+            r = run_kani(crate_dir, names, features=feats, timeout=(tmo(names[0], tier) if tmo else 1500), module=suite.get('module', 'proofs'), extra=suite.get('extra', ()))
         if r['build_error']:
-            undecided.append('kani build of %s [%s] failed: %s' % (suite['crate'], cfgname, r['build_error'][-1500:]))
+            if suite.get('build_failure_is_violation'):
+                findings.append(dict(kind='kani', obligation='%s[%s]::build' % (suite['crate'], cfgname),
+                                     message='the corpus crate does not build: a definition accepted before is now rejected (or vice versa)',
+                                     harness=None, config=cfgname, counterexample=None, native=None, native_reproduced=False,
+                                     rendered=r['build_error'][-3000:], src=[]))
+            else:
+                undecided.append('kani build of %s [%s] failed: %s' % (suite['crate'], cfgname, r['build_error'][-1500:]))
             continue
+        cover_seen = {}
         for h in names:
             res = r['results'].get(h)
             rec = dict(harness=h, config=cfgname, crate=suite['crate'], cmd=r['cmd'])
-            if res is None or res['status'] == 'unknown':
+            if res is None or res['status'] in ('unknown', 'timeout'):
                 rec['status'] = 'undecided'
-                undecided.append('kani harness %s [%s]: no verdict (%s)' % (h, cfgname, 'timeout' if r['timed_out'] else 'not reported'))
+                undecided.append('kani harness %s [%s]: no verdict (%s)' % (h, cfgname, (res or {}).get('status', 'not run') + ' ' + ((res or {}).get('error') or '')[-300:]))
                 ev['kani_runs'].append(rec); continue
-            bad = [(d, w) for (d, w) in res['failed_checks'] if not _allowed(h, d, suite.get('allow'))]
-            expected_missing = []
-            for pat, descs in (suite.get('expect') or {}).items():
+            descs = [d for d, _ in res['failed_checks']]
+            unwind = [d for d in descs if 'unwinding assertion' in d]
+            bad = [(d, w) for (d, w) in res['failed_checks'] if not _allowed(h, d, suite.get('allow')) and 'unwinding assertion' not in d]
+            for pat, ds in (suite.get('expect') or {}).items():
                 if re.match(pat + r'$', h):
-                    for dsc in descs:
-                        if dsc not in [d for d, _ in res['failed_checks']]: expected_missing.append(dsc)
+                    for dsc in ds:
+                        if dsc not in descs:
+                            bad.append(('expected check `%s` did not fire (the specified panic is no longer reachable)' % dsc, ''))
             rec.update(status='ok' if not bad else 'fail', checks=res['checks'], failed=len(bad), time_s=res['time_s'],
-                       allowed_failures=[d for (d, w) in res['failed_checks'] if (d, w) not in bad],
-                       covers_satisfied=res.get('covers_sat'), covers_total=res.get('covers_total'))
+                       allowed_failures=[d for (d, w) in res['failed_checks'] if (d, w) not in bad and 'unwinding' not in d],
+                       covers={k: v for k, v in res.get('covers', {}).items()})
+            for k, v in res.get('covers', {}).items():
+                if v == 'SATISFIED': cover_seen[k] = cover_seen.get(k, 0) + 1
+            if unwind and not bad:
+                rec['status'] = 'undecided'
+                undecided.append('kani harness %s [%s]: unwinding bound too small (%s)' % (h, cfgname, unwind[0]))
             if res['checks'] == 0:
                 rec['status'] = 'undecided'; undecided.append('kani harness %s [%s]: zero checks (vacuity guard)' % (h, cfgname))
-            if res.get('covers_total') and res.get('covers_sat') != res.get('covers_total'):
-                rec['status'] = 'undecided' if not bad else rec['status']
-                undecided.append('kani harness %s [%s]: %s of %s cover points satisfied (vacuity guard): %s'
-                                 % (h, cfgname, res.get('covers_sat'), res.get('covers_total'), res.get('covers_unsat')))
             if bad:
-                # concrete input + native replay
-                pb = run_kani(crate_dir, [h], features=feats, timeout=suite.get('timeout', {}).get(tier, 1500), playback=True,
+                pb = run_pool(crate_dir, [h], features=feats, timeout=(tmo(h, tier) if tmo else 900) * 2, playback=True,
                               module=suite.get('module', 'proofs'), extra=suite.get('extra', ()))
                 vals = (pb['results'].get(h) or {}).get('playback')
                 nat = native_replay(crate_dir, h, vals, feats) if vals is not None else None
@@ -203,6 +225,10 @@ def run_suite(suite, tier, repo, ev, findings, prop, seed=0):
                                      rendered='Kani: failed checks in harness %s [%s]:\n%s' % (h, cfgname, '\n'.join('  %s  %s' % b for b in bad)),
                                      src=[w for _, w in bad]))
             ev['kani_runs'].append(rec)
+        missing = [c for c in suite.get('covers', []) if not cover_seen.get(c)]
+        ev.setdefault('cover_points', []).append(dict(suite=suite.get('label', suite['crate']), config=cfgname, satisfied=cover_seen, required=suite.get('covers', [])))
+        if missing:
+            undecided.append('%s [%s]: cover point(s) never satisfied (vacuity guard): %s' % (suite.get('label', suite['crate']), cfgname, missing))
         if suite.get('bounded'):
             ev['bounded'].append('%s [%s]: %s' % (suite.get('label', suite['crate']), cfgname, suite['bounded'](tier) if callable(suite['bounded']) else suite['bounded']))
     return undecided
